@@ -363,7 +363,6 @@ def C_must_pass(b, start, targets):
 
 
 UNSIGNED_BITS = {'u8': 8, 'u16': 16, 'u32': 32, 'u64': 64, 'usize': 64, 'u128': 128}
-STAT_WIDTHS = {}
 
 
 def peel_widening(v):
@@ -418,7 +417,7 @@ def stat_roles(cad):
             if not term_callee_is(v, 'core::sync::atomic::Atomic::load'):
                 return None
             out[n_] = leaf_field_name(v[2][0])
-            STAT_WIDTHS[n_] = atomic_width(cad, SS, out[n_], w_)
+            cad.__dict__.setdefault('_stat_widths', {})[n_] = atomic_width(cad, SS, out[n_], w_)
         if len(out) != 4 or len(set(out.values())) != 4 or None in out.values():
             return None
         if res is not None and res != out:
@@ -579,7 +578,7 @@ def rule_shared_counters(ctx, rep, rid='R3'):
         if ok:
             import struct
             host64 = struct.calcsize('P') * 8 >= 64
-            narrow = sorted('%s is kept in a %s' % (n_, w_) for n_, w_ in STAT_WIDTHS.items()
+            narrow = sorted('%s is kept in a %s' % (n_, w_) for n_, w_ in cad.__dict__.get('_stat_widths', {}).items()
                             if UNSIGNED_BITS[w_] < 64 or (w_ == 'usize' and not host64))
             rep.ob(rid, 'counter-as-wide-as-its-figure', not narrow, b.where(),
                    'every counter is at least as wide as the u64 figure it is reported as (usize counts as 64 bits on the analysed target)'
